@@ -358,6 +358,17 @@ def coherence_monitor():
                 tr = memo.get("train")
                 if tr is not None and tr[1] is not None:
                     Ut, Lt, _ = tr
+                    # the labels of the active particles must be the labels the TRAINING model gives them (one shared model; the
+                    # prediction is row-wise, so it is taken inside a batch together with the training pool)
+                    try:
+                        clu = p.sampler._core.trainer.clusterer
+                        exp = np.asarray(clu.predict(np.vstack([np.asarray(kc["u"]), Ut])))[: len(a)]
+                    except Exception:
+                        exp = None
+                    if exp is not None and not np.array_equal(exp, a):
+                        bad = int(np.sum(exp != a))
+                        p.violate("labels:not-those-of-the-training-model", f"iteration {ev.iter}: {bad} of {len(a)} active particles carry a label that the model used to fit the modes does not give them "
+                                  f"(labels {a.tolist()[:8]} vs {exp.tolist()[:8]})", iter=ev.iter)
                     for l in sorted(set(a.tolist())):
                         pts_l = Ut[Lt == l]
                         if len(pts_l):
@@ -459,6 +470,11 @@ def plan(ctx):
                         c.append({"kind": "cadence", "base": ctx.seed, "all_checkpoints": th, "cfg": dict(clustering=True, cluster_every=ce, ess_ratio=ratio, sample=kern, normalize=norm,
                                                                                  n_max_clusters=cap, target="unequal" if (ce + int(ratio)) % 2 else "bimodal",
                                                                                  n_particles=32 if (ce + int(ratio)) % 2 else 24, n_total=96)})
+    for npart in (1, 2):
+        for kern in ("tpcn", "rwm"):
+            for tgt in ("bimodal", "unequal"):
+                c.append({"kind": "cadence", "base": ctx.seed, "all_checkpoints": False, "cfg": dict(clustering=True, cluster_every=1 + (npart % 2), ess_ratio=4.0, sample=kern, normalize=True,
+                                                                                                     n_max_clusters=None, target=tgt, n_particles=npart, n_total=12)})
     ctx.bounds.update({"scripted": {"K": [2, 3], "m": [4, 5, 6], "n_resampled": 3}, "cadence": {"cluster_every": [1, 2, 3, 4, 5, 7], "configs": len(c), "resume": "from every checkpoint"}})
     if not th:
         ctx.notes.append("quick: one third of the cadence lattice and one eighth of the three-blob pools (rotated by VERIF_SEED); every selected run is resumed from every checkpoint")
